@@ -753,6 +753,13 @@ def _run_case(doc, case, ci, res, inst, space, W, H, items, n_items, lo, hi):
                 n_tok = len(re.findall(r"-?\d+", payload))
                 if n_tok != n_items * 6 and "shape" not in bad:
                     bad = ["shape"] + bad
+                # ... and what is returned is what the store holds, sign
+                # included (values outside the storage type are left to numpy)
+                toks = [int(t) for t in re.findall(r"-?\d+", payload)]
+                if n_tok == n_items * 6 and all(lo <= t <= hi for t in toks) \
+                        and [toks[k:k + 6] for k in range(0, n_tok, 6)] \
+                        != grows:
+                    bad = ["content"] + bad
             res["events"].append([how, "returned", core.digest(grows)[:12],
                                   list(bad)])
             res["states"].append(
